@@ -23,8 +23,29 @@ def check_ids(xs):
     """Returns (n, first failure or None)."""
     MessageId, PGN, _ = _mods()
     n = 0
+    mr, gr = MessageId(can_id=0), PGN()        # objects that are re-used: re-assigned after they have been read
     for x in xs:
         n += 1
+        if n % 4 == 0:
+            _ = mr.can_id, gr.value
+            mr.can_id = x
+            if mr.can_id != x or mr.priority != (x >> 26) & 7 or mr.parameter_group_number != (x >> 8) & 0x3FFFF or mr.source_address != x & 0xFF:
+                return n, ("id-reassigned", "a MessageId object re-assigned with can_id = 0x%08X reads back 0x%08X (%r/%r/%r)"
+                           % (x, mr.can_id, mr.priority, mr.parameter_group_number, mr.source_address))
+            mr.priority = (mr.priority + 1) & 7
+            mr.source_address = (mr.source_address + 1) & 0xFF
+            want = (x & 0x03FFFF00) | (((x >> 26) + 1) & 7) << 26 | ((x + 1) & 0xFF)
+            if mr.can_id != want:
+                return n, ("id-field-assigned", "after priority / source_address were assigned on a MessageId parsed from 0x%08X its "
+                           "can_id is 0x%08X, expected 0x%08X" % (x, mr.can_id, want))
+            gr.from_message_id(MessageId(can_id=x))
+            _ = gr.value
+            gr.pdu_specific = (gr.pdu_specific + 1) & 0xFF
+            gr.data_page = gr.data_page ^ 1
+            wantg = ((((x >> 24) & 1) ^ 1) << 16) | (((x >> 16) & 0xFF) << 8) | (((x >> 8) + 1) & 0xFF)
+            if gr.value != wantg:
+                return n, ("pgn-field-assigned", "after pdu_specific / data_page were assigned on a PGN filled from id 0x%08X its value "
+                           "is 0x%05X, expected 0x%05X" % (x, gr.value, wantg))
         m = MessageId(can_id=x)
         p, g18, sa = (x >> 26) & 7, (x >> 8) & 0x3FFFF, x & 0xFF
         if m.priority != p or m.parameter_group_number != g18 or m.source_address != sa:
